@@ -59,12 +59,10 @@ def gap(b):
 
 
 def accrual_allowance(before, after):
-    """proved allowance of one accrual (C06_credit_le_charge): L + tls + irl + 1"""
-    if after["asv"] == before["asv"] and after["lsv"] == before["lsv"]:
-        return 0
+    """proved allowance of one accrual (Coq accrual_slack, SolvencyLemmas.v): L + tls + asv'*2^48/asv + 3.
+    It applies whenever the bank accrued, also when both share values round to no change (fees are still booked)."""
     lq = before["tls"] * before["lsv"] // ONE
-    irl = (after["asv"] * ONE // before["asv"] - ONE + 2) if before["asv"] > 0 else 0
-    return lq + before["tls"] + max(irl, 0) + 1
+    return lq + before["tls"] + (max(after["asv"], before["asv"]) * ONE // max(1, before["asv"]) + 2) + 1
 
 
 def oracle_c01(tr):
